@@ -65,6 +65,7 @@ class Func(NamedTuple):
                     category=Category(cinfo.name),
                     context=definitions,
                     line=cinfo.line,
+                    inherited=cinfo.inherited,
                 )
                 contracts.append(contract)
             funcs.append(cls(
@@ -110,6 +111,7 @@ class Func(NamedTuple):
                     category=Category(cinfo.name),
                     context=definitions,
                     line=cinfo.line,
+                    inherited=cinfo.inherited,
                 )
                 contracts.append(contract)
             assert expr.lineno is not None
